@@ -51,6 +51,7 @@ def decFn (j : Json) : R Fn := do
   let nonfunc : Option NonFunc :=
     match jstr j "nonfunc" with
     | .ok "nil" => some .nil | .ok "int" => some .int | .ok "ptr" => some .ptr | .ok "struct" => some .struct
+    | .ok "nilfunc" => some .nilfunc | .ok "nilfunc1" => some .nilfunc
     | _ => none
   let ins ← match jarr j "in" with | .ok a => a.toList.mapM decGoT | .error _ => pure []
   let outs ← match jarr j "out" with | .ok a => a.toList.mapM decGoT | .error _ => pure []
